@@ -159,6 +159,101 @@ func cmsShapedSeeds(c *Ctx) []p7Seed {
 	return seeds
 }
 
+// attachedContents: kinds of signed content by what the octets look like to a DER reader. The property
+// quantifies over all contents; an attached signature carries them as the value of an OCTET STRING (CMS) and the
+// signed message digest is over exactly those octets, whatever they happen to parse as: text, arbitrary bytes,
+// a single byte, nothing, or a file that is itself exactly one DER element (a .der certificate, a key, a CSR,
+// another signature blob: one SEQUENCE; an OCTET STRING holding a SEQUENCE; a SET), one DER element followed
+// by a further byte, and bytes that only start like an element.
+func attachedContents(c *Ctx, cert *x509.Certificate, nested []byte) []struct {
+	name string
+	b    []byte
+} {
+	type ct = struct {
+		name string
+		b    []byte
+	}
+	small := []byte{0x30, 0x03, 0x02, 0x01, 0x2a}
+	out := []ct{
+		{"text", []byte("content signed by a third-party tool\n")},
+		{"der-sequence/small", small},
+		{"der-sequence/certificate", cert.Raw},
+		{"der-sequence/signature-blob", nested},
+		{"der-octet-string-holding-a-sequence", tlv(0x04, small)},
+		{"der-set", tlv(0x31, small[2:])},
+		{"der-sequence-then-one-byte", append(append([]byte{}, small...), 0x00)},
+		{"starts-like-a-sequence", []byte{0x30, 0x82, 0x01, 0x00, 'x', 'y'}},
+		{"single-zero-byte", []byte{0}},
+		{"binary-1k", randBytes(c, 1024)},
+	}
+	var res []ct
+	for _, x := range out {
+		if len(x.b) > 0 {
+			res = append(res, x)
+		}
+	}
+	return res
+}
+
+// contentKindSeeds: attached signatures over each kind of content, made by the OpenSSL CLI (smime and cms, -nodetach)
+// when it exists and built in the harness in OpenSSL's shape; plus one detached OpenSSL signature per kind (the
+// content is not in the blob then: has to verify all the same)
+func contentKindSeeds(c *Ctx) []p7Seed {
+	k0, k1 := poolKey(c, 2048, 0), poolKey(c, 2048, 1)
+	sh := certShapes(c)[1]
+	right, twin, other := makeRSACert(k0, sh), makeRSACert(k1, sh), makeRSACert(k1, certShapes(c)[0])
+	nested := buildCMS(k0, right, []byte("inner content"), true, false, true)
+	contents := attachedContents(c, right, nested)
+	var seeds []p7Seed
+	for i, ct := range contents {
+		if b := buildCMS(k0, right, ct.b, true, i%2 == 0, i%3 != 0); b != nil {
+			seeds = append(seeds, p7Seed{"cms-shaped/attached-content/" + ct.name, b, right, twin, other, true})
+		}
+	}
+	ossl := opensslPath()
+	if ossl == "" {
+		return seeds
+	}
+	dir, err := os.MkdirTemp("", "vcheck-ossl-content")
+	if err != nil {
+		return seeds
+	}
+	defer os.RemoveAll(dir)
+	os.WriteFile(filepath.Join(dir, "key.pem"), pem.EncodeToMemory(&pem.Block{Type: "RSA PRIVATE KEY", Bytes: x509.MarshalPKCS1PrivateKey(k0)}), 0o600)
+	os.WriteFile(filepath.Join(dir, "cert.pem"), pem.EncodeToMemory(&pem.Block{Type: "CERTIFICATE", Bytes: right.Raw}), 0o644)
+	ran := []string{}
+	for i, ct := range contents {
+		os.WriteFile(filepath.Join(dir, "content.bin"), ct.b, 0o644)
+		cfgs := [][]string{{"smime", "-nodetach"}, {"cms", "-nodetach"}}
+		if !c.Thorough { // quick: the two tools alternate over the kinds; every third kind also detached
+			cfgs = cfgs[i%2 : i%2+1]
+		}
+		if c.Thorough || i%3 == 1 {
+			cfgs = append(cfgs, []string{[]string{"cms", "smime"}[i%2]})
+		}
+		for _, cfg := range cfgs {
+			out := filepath.Join(dir, "out.der")
+			os.Remove(out)
+			args := append([]string{cfg[0], "-sign", "-binary", "-md", "sha256", "-signer", filepath.Join(dir, "cert.pem"), "-inkey", filepath.Join(dir, "key.pem"),
+				"-in", filepath.Join(dir, "content.bin"), "-outform", "DER", "-out", out}, cfg[1:]...)
+			cmd := exec.Command(ossl, args...)
+			cmd.Env = append(os.Environ(), "OPENSSL_CONF=/dev/null")
+			if err := cmd.Run(); err != nil {
+				continue
+			}
+			b, err := os.ReadFile(out)
+			if err != nil || len(b) == 0 {
+				continue
+			}
+			name := "openssl/" + fmt.Sprint(cfg) + "/content/" + ct.name
+			ran = append(ran, name)
+			seeds = append(seeds, p7Seed{name, b, right, twin, other, true})
+		}
+	}
+	c.Note("openssl content kinds", ran)
+	return seeds
+}
+
 // validityShapes: signer certificates whose validity period stands in every relation to the signing
 // time t of the signature: covering it, ended before it (by a year, by a second), starting after it (in
 // a second, in a year), starting or ending exactly at it, a single instant equal to it, and no validity
@@ -399,8 +494,33 @@ func c16AttrsHistory(c *Ctx, cs Case) {
 // re-encoding the parsed signed attributes reproduces exactly the bytes that were signed
 func c16Attrs(c *Ctx, cs Case) {
 	blob := unhx(cs.S("blob"))
-	goObs := goAttrsStr(blob)
-	c.Count(cs.Key(), true, "C16/attrs/"+cs.S("class"))
+	goObs := ""
+	if tz := cs.S("tz"); tz != "" {
+		// the library parses, re-encodes and verifies in a process whose local time zone is tz
+		w, offset := c16ZoneWorker(c, tz)
+		res := w.Do("p7.reencode", map[string]string{"b": cs.S("blob"), "cert": cs.S("cert")}, 20*time.Second)
+		c.Count(cs.Key(), offset != 0, fmt.Sprintf("C16/attrs/%s/zone/%s", cs.S("class"), tz))
+		parts := strings.SplitN(res.Out, "|", 2)
+		if res.Class != "ok" || len(parts) != 2 {
+			c.Fail(Failure{Kind: "property", What: "parsing, re-encoding the signed attributes and verifying did not finish with a result in a process whose local time zone is " + tz, Case: cs, Go: clip(res.Class + " " + res.Out + res.Panic)})
+			return
+		}
+		goObs = parts[1]
+		// which zone the process runs in is no part of the signature: the verdict is the one given under UTC
+		if cd := cs.S("cert"); cd != "" {
+			if cert, err := x509.ParseCertificate(unhx(cd)); err == nil {
+				if here := goP7Class(blob, cert); parts[0] != here {
+					c.Fail(Failure{Kind: "property", What: "ParsePKCS7+Verify of a third-party signature answers differently in a process whose local time zone is " + tz, Case: cs, Go: parts[0], Spec: here + " (the answer of this process)"})
+				}
+				if cs.S("expect") == "accept" && parts[0] != "ok true" {
+					c.Fail(Failure{Kind: "property", What: "a third-party signature with signed attributes does not verify against the signer's certificate in a process whose local time zone is " + tz, Case: cs, Go: parts[0], Spec: "ok true"})
+				}
+			}
+		}
+	} else {
+		goObs = goAttrsStr(blob)
+		c.Count(cs.Key(), true, "C16/attrs/"+cs.S("class"))
+	}
 	c.Trace()
 	m := c.Drv.Ask("p7.attrs", hx(blob), "1")
 	if m != goObs {
@@ -449,6 +569,44 @@ func c16Attrs(c *Ctx, cs Case) {
 	}
 }
 
+// ---- the verifying process in another local time zone ----
+
+// c16Zones: local time zones of the process that parses, re-encodes and verifies: east and west of UTC, a zone with
+// an offset that is no whole number of hours, fixed offsets at both ends, and UTC itself for contrast
+var c16Zones = []string{"Asia/Tokyo", "America/St_Johns", "Europe/Berlin", "Etc/GMT+12", "Etc/GMT-14", "UTC"}
+
+var c16Workers = map[string]*Worker{}
+var c16Offsets = map[string]int{}
+
+func c16ZoneWorker(c *Ctx, tz string) (*Worker, int) {
+	if w, ok := c16Workers[tz]; ok {
+		return w, c16Offsets[tz]
+	}
+	w := c.NewWorker(4<<20, "TZ="+tz)
+	c16Workers[tz] = w
+	if res := w.Do("tz.probe", map[string]string{}, 10*time.Second); res.Class == "ok" {
+		if f := strings.Fields(res.Out); len(f) == 2 {
+			c16Offsets[tz] = atoi(f[0])
+			c.Note("verifying zone "+tz, fmt.Sprintf("offset %ss from UTC", f[0]))
+		}
+	}
+	return w, c16Offsets[tz]
+}
+
+func init() {
+	// worker side: verify and re-encode in this process (whose TZ the parent chose): "<verdict>|<attrs string>"
+	workerOps["p7.reencode"] = func(a map[string]string) (string, string) {
+		blob := unhx(a["b"])
+		verdict := "-"
+		if cd := unhx(a["cert"]); len(cd) > 0 {
+			if cert, err := x509.ParseCertificate(cd); err == nil {
+				verdict = goP7Class(blob, cert)
+			}
+		}
+		return "ok", verdict + "|" + goAttrsStr(blob)
+	}
+}
+
 // the signer entries of a blob, located with encoding/asn1
 func stdSigners(blob []byte) []stdSignerInfo {
 	var sd stdSignedData
@@ -468,6 +626,13 @@ func c16Gen(c *Ctx) {
 	seeds = append(seeds, opensslSeeds(c)...)
 	seeds = append(seeds, cmsShapedSeeds(c)...)
 	seeds = append(seeds, validitySeeds(c)...)
+	seeds = append(seeds, contentKindSeeds(c)...)
+	defer func() {
+		for tz, w := range c16Workers {
+			w.Close()
+			delete(c16Workers, tz)
+		}
+	}()
 	all := p7Seeds(c, false)
 	for _, s := range all {
 		if len(s.name) > 8 && s.name[:8] == "fixture/" {
@@ -499,6 +664,17 @@ func c16Gen(c *Ctx) {
 			ac["cert"] = hx(s.right.Raw)
 		}
 		c16Attrs(c, ac)
+		// the same two questions (verdict for the signer's certificate, reconstruction of the signed attributes) asked
+		// of a process that runs in another local time zone. Quick: the zones rotate over the seeds, two per seed;
+		// thorough: every zone for every seed
+		if s.canVerify {
+			for zi, tz := range c16Zones {
+				if !c.Thorough && zi != len(names)%len(c16Zones) && zi != (len(names)+3)%len(c16Zones) {
+					continue
+				}
+				c16Attrs(c, Case{"op": "attrs", "class": "third-party", "blob": hx(s.blob), "seed": s.name, "cert": hx(s.right.Raw), "tz": tz, "expect": "accept"})
+			}
+		}
 	}
 	c.Note("seeds", names)
 	// histories of reconstructions over several signatures with all results kept: every window of three seeds
@@ -532,7 +708,7 @@ func c16Gen(c *Ctx) {
 
 func init() {
 	register("C16", &PropDef{
-		Rule:   "OpenSSL smime/cms x {detached, -nodetach} x {-nosmimecap} x {-nocerts} x {-cades} produced at check time when the CLI exists, and smime/cms -noattr (no signed attributes: has to parse, need not verify); harness-built CMS SignedData in OpenSSL's shape (DER-sorted attribute SET, S/MIME capabilities on/off, attached/detached, certificates on/off, signer self-signed or issued by a CA, the signer's certificate itself signed with SHA-256, SHA-384 or SHA-512, a hand-encoded multi-valued-RDN name; signer keys of 2048 bits and - OpenSSL smime / cms -nodetach and harness-built - of 2047 and 2049 bits [thorough: also 3001, 4095], i.e. RSA moduli that are not a whole number of bytes long); signer certificates whose validity period stands in every relation to the signed signingTime (covering it, expired a year / a second before it, valid only from a second / a year after it, ending or starting exactly at it, a single instant equal to it, no validity period at all = both dates the zero time, only NotBefore zero; self-signed and CA-issued) for signatures made now [all relations], in 2011 and in 2049 [quick: a third of the relations each], the default 2023..2033 certificate with a signingTime one second before / exactly at / one second after either end and in 1999, and OpenSSL smime / cms signing now with such expired / not yet valid / period-less certificates - validity periods play no part in the property: the signature must verify against the signer's certificate and be rejected for the twin and the unrelated one; the sbsign / sbvarsign artefacts of the repository. Harness-built blobs without signed attributes (signature over the content octets, attached and detached) have to parse. Each is parsed and verified against the signer's certificate, a twin (same issuer+serial, other key) and an unrelated certificate - on a fresh parsed object and on ONE parsed object that answers for several certificates in turn, in both orders (signer's certificate after the twin: Verify(twin), Verify(signer), Verify(twin), Verify(signer); twin and unrelated certificate after the signer's) -, and its signed attributes are re-encoded and compared with the transmitted bytes located with encoding/asn1; where the blob verifies, the entry's signature is checked with crypto/rsa under the signer's key over the re-encoding itself. Histories of reconstructions: for every window of three seeds (two neighbours and one seven places on) the three signatures are parsed, Attributes.Marshal is called on them in the order 0,1,2,0,2,1 with EVERY result kept, and at the end each kept result must still be the bytes signed in its own signature (thorough: 400 random histories over 2-6 seeds and 2-13 reconstructions as well). Every case is non-trivial; distinct = distinct (blob, certificate).",
+		Rule:   "OpenSSL smime/cms x {detached, -nodetach} x {-nosmimecap} x {-nocerts} x {-cades} produced at check time when the CLI exists, and smime/cms -noattr (no signed attributes: has to parse, need not verify); harness-built CMS SignedData in OpenSSL's shape (DER-sorted attribute SET, S/MIME capabilities on/off, attached/detached, certificates on/off, signer self-signed or issued by a CA, the signer's certificate itself signed with SHA-256, SHA-384 or SHA-512, a hand-encoded multi-valued-RDN name; signer keys of 2048 bits and - OpenSSL smime / cms -nodetach and harness-built - of 2047 and 2049 bits [thorough: also 3001, 4095], i.e. RSA moduli that are not a whole number of bytes long); signer certificates whose validity period stands in every relation to the signed signingTime (covering it, expired a year / a second before it, valid only from a second / a year after it, ending or starting exactly at it, a single instant equal to it, no validity period at all = both dates the zero time, only NotBefore zero; self-signed and CA-issued) for signatures made now [all relations], in 2011 and in 2049 [quick: a third of the relations each], the default 2023..2033 certificate with a signingTime one second before / exactly at / one second after either end and in 1999, and OpenSSL smime / cms signing now with such expired / not yet valid / period-less certificates - validity periods play no part in the property: the signature must verify against the signer's certificate and be rejected for the twin and the unrelated one; ATTACHED signatures over each kind of content by what its octets look like to a DER reader (text, 1 KiB of random bytes, a single zero byte, a file that is itself exactly one DER SEQUENCE - a small one, a .der certificate, another signature blob -, one OCTET STRING holding a SEQUENCE, one SET, a SEQUENCE followed by one more byte, bytes that only start like a SEQUENCE), harness-built in OpenSSL's shape and made by OpenSSL smime / cms -nodetach (quick: the two tools alternate over the kinds, every third kind also detached; thorough: both, and detached, for every kind); the sbsign / sbvarsign artefacts of the repository. Harness-built blobs without signed attributes (signature over the content octets, attached and detached) have to parse. Each is parsed and verified against the signer's certificate, a twin (same issuer+serial, other key) and an unrelated certificate - on a fresh parsed object and on ONE parsed object that answers for several certificates in turn, in both orders (signer's certificate after the twin: Verify(twin), Verify(signer), Verify(twin), Verify(signer); twin and unrelated certificate after the signer's) -, and its signed attributes are re-encoded and compared with the transmitted bytes located with encoding/asn1; where the blob verifies, the entry's signature is checked with crypto/rsa under the signer's key over the re-encoding itself. The verifying process's local time zone: for every blob with signed attributes the verdict for the signer's certificate and the reconstruction of the signed attributes are also asked of worker processes started with TZ = Asia/Tokyo, America/St_Johns, Europe/Berlin, Etc/GMT+12, Etc/GMT-14 and UTC (quick: two zones per blob, rotating; thorough: all six; the worker reports its offset, a case counts as non-trivial when it is not zero): the blob must verify there, the verdict must be the one given in this process, and the reconstruction must be the transmitted bytes (signingTime is a UTCTime ending in Z, whatever the zone of the process that re-encodes it). Histories of reconstructions: for every window of three seeds (two neighbours and one seven places on) the three signatures are parsed, Attributes.Marshal is called on them in the order 0,1,2,0,2,1 with EVERY result kept, and at the end each kept result must still be the bytes signed in its own signature (thorough: 400 random histories over 2-6 seeds and 2-13 reconstructions as well). Every case is non-trivial; distinct = distinct (blob, certificate).",
 		Assume: []string{"which OpenSSL configurations ran is recorded in notes.openssl; nothing depends on the CLI being present"},
 		Eval:   c16Eval, Gen: c16Gen,
 	})
